@@ -123,6 +123,7 @@ class Explorer:
         self.queue = deque()
         self.stats = defaultdict(int)
         self.feas_timeout_ms = feas_timeout_ms
+        self._feas_default = feas_timeout_ms
         self.feas_axioms = True
         self.feas_light = os.environ.get('PYVC_FEAS_LIGHT', '1') == '1'   # feasibility checks without pairwise schemas
         self.timeout_ms = timeout_ms
@@ -964,6 +965,7 @@ class Explorer:
         self.merge_light_only = bool(c.opts.get('split_heavy', False))
         self.opaque_specs = {k: (v[0], v[1]) for k, v in c.opts.get('opaque', {}).items()}
         self.quant = c.opts.get('quant')
+        self.feas_timeout_ms = c.opts.get('feas_ms', getattr(self, '_feas_default', None) or self.feas_timeout_ms)   # per-contract feasibility timeout (unknown = feasible)
         theory.EXTRA = set(c.opts.get('schemas', []))
         info = self.index.find_function(c.target) if c.target else None
         case = case or {}
